@@ -254,6 +254,10 @@ func initModels() {
 		}
 		return []Val{scalar(rt(cc, 0), "(str.contains "+a[0].S+" "+a[1].S+")")}
 	})
+	models["math.Abs"] = pure(func(x *Exec, p *Path, cc *ssa.CallCommon, a []Val) []Val {
+		x.e.note("float64 modelled as real: math.Abs is the real absolute value")
+		return []Val{scalar(rt(cc, 0), ite("(>= "+a[0].S+" 0.0)", a[0].S, "(- "+a[0].S+")"))}
+	})
 	models["math.IsNaN"] = pure(func(x *Exec, p *Path, cc *ssa.CallCommon, a []Val) []Val {
 		x.e.note("float64 modelled as real: NaN does not occur")
 		return []Val{scalar(rt(cc, 0), "false")}
